@@ -138,12 +138,17 @@ def which(path: str):
     return None
 
 
-def run_write(d: Path, gen: int, kill_after: int | None, flags=(True, False), fail_at: int | None = None):
+FLAGS = [(True, False)]  # (safely, overwrite) handed to save_parameters by run_write when not given explicitly
+
+
+def run_write(d: Path, gen: int, kill_after: int | None, flags=None, fail_at: int | None = None):
     """run the REAL save_parameters(name, params(gen)) in a forked child, in directory d;
     SIGKILL the child right after its `kill_after`-th file-system operation (None: run to the end).
     fail_at = i: the i-th ATTEMPTED write / rename / replace / remove / unlink / open-for-writing raises OSError(EIO)
     instead of being performed (an I/O error the process survives; recorded as the event "!:<op>").
     Returns (events, status) where events is the list of operations performed."""
+    if flags is None:
+        flags = FLAGS[0]
     r, w = os.pipe()
     pid = os.fork()
     if pid == 0:
@@ -725,6 +730,9 @@ def run(ck: Check):
     )
     ck.extra["translator_recognised_source"] = tr_ok
     ck.extra["call_sites"] = [list(map(str, x)) for x in sites]
+    # call sites that rewrite the run's checkpoint file with other flags than (safely=True, overwrite=False), or
+    # with flags that cannot be resolved statically: what such a call does to an existing checkpoint is searched below
+    unsafe_sites = [(l, sf_, o_) for l, same, sf_, o_ in sites if same and not (sf_ is True and o_ is False)]
 
     drv = None
     try:
@@ -745,6 +753,27 @@ def run(ck: Check):
                 explore(ck, drv, writer, 0, 2 if ck.thorough() else 1, inv_states, tmp_root, worst)
             except Exception as e:  # the caller could not be constructed/driven: correspondence broken, not a crash
                 ck.mismatch("caller could not be driven", {"writer": writer, "error": f"{type(e).__name__}: {e}"})
+        # a caller that reaches save_parameters with unsafe flags on the run's checkpoint file: crash enumeration of
+        # exactly that write (the flags as resolved at the call site; unresolved ones are tried both ways)
+        for label, sf_, o_ in unsafe_sites[:4]:
+            for fl in [(a, b) for a in ([sf_] if sf_ is not None else [True, False])
+                       for b in ([o_] if o_ is not None else [False, True])]:
+                if fl == (True, False):
+                    continue
+                w0 = len(worst)
+                try:
+                    FLAGS[0] = fl
+                    explore(ck, None, "save_parameters", 0, 1, ["CAA", "CCC"], tmp_root, worst)
+                finally:
+                    FLAGS[0] = (True, False)
+                for k in range(w0, len(worst)):
+                    h = worst[k][0]
+                    for step in h:
+                        step["flags"] = list(fl)
+                        step["call_site"] = label
+                    why = (f"the call site {label} rewrites the checkpoint file with safely={fl[0]}, overwrite={fl[1]}: "
+                           + ("the checkpoint name refers to a truncated file" if worst[k][1][0] == "T" else "no complete checkpoint survives"))
+                    worst[k] = (h, worst[k][1], why)
         # I/O errors the process survives (the i-th attempted operation raises), then crash points of the aftermath
         for writer in ("save_parameters", "MCMC.save_full_state"):
             try:
@@ -813,7 +842,8 @@ def run(ck: Check):
         why = worst[0][2] if len(worst[0]) > 2 else None
         what = why or ("checkpoint name refers to a truncated/corrupt file" if st[0] == "T" else "no complete checkpoint survives")
         ck.violation(
-            hist[-1]["writer"] + ":" + ("stale-or-mixed-generation" if why else "truncated-name" if st[0] == "T" else "lost-checkpoint"),
+            hist[-1]["writer"] + ":" + ("unsafe-call-site" if hist[-1].get("call_site") else "stale-or-mixed-generation" if why
+                                        else "truncated-name" if st[0] == "T" else "lost-checkpoint"),
             f"{what} after crash history {[(h['from'], h.get('kill_after', h.get('kill_before_syscall'))) for h in hist]} "
             f"({hist[-1].get('mode', 'python-level')} crash points) of {hist[-1]['writer']} -> {st}",
             {"history": hist, "dir_after": st, "broken_obligations": broken, "replay_cmd": "./check C18 --replay <this file>"},
@@ -862,7 +892,7 @@ def replay(path: str) -> int:
             if h.get("mode") == "strace":
                 run_write_strace(d, gen, tuple(h["kill_before_syscall"]) if h["kill_before_syscall"] else None)
             else:
-                run_write(d, gen, h["kill_after"], fail_at=h.get("fail_at"))
+                run_write(d, gen, h["kill_after"], flags=tuple(h["flags"]) if h.get("flags") else None, fail_at=h.get("fail_at"))
             st1, gens1 = classify(d, gen + 1)
             w = []
             gen_check(None, None, w, [h], st0, gens0, st1, gens1, gen)
